@@ -87,14 +87,18 @@ def FaceOK (vs : Array (CSOPoint2 K)) (f : Face2 K) : Prop :=
     ((ccwFaceNormal2 a.point b.point = some f.normal ∧ f.deleted = false) ∨
      (ccwFaceNormal2 a.point b.point = none ∧ f.normal = V2.zero ∧ f.deleted = true))
 
-/-- barycentric coordinates of the form `[1 - t, t]` (`project_origin`) or the literal `[1, 0]` of the 1-D start -/
-def BcOK (b0 b1 : K) : Prop := b0 = 1 - b1 ∨ (b0 = 1 ∧ b1 = 0)
+/-- the face's `proj` / `bcoords` are the literal `[1, 0]` of the 1-D start, or what `project_origin` returned for the
+face's own two end points (`proj_is_inside`) -/
+def InsOK (vs : Array (CSOPoint2 K)) (f : Face2 K) : Prop :=
+  (f.bc0 = 1 ∧ f.bc1 = 0) ∨
+  ∃ a b, vs[f.pts0]? = some a ∧ vs[f.pts1]? = some b ∧ epaProjectOrigin2 a.point b.point = some (f.proj, f.bc0, f.bc1)
 
 /-- what every `Some((p1, p2, n))` of the loop is made of: two stored CSO points `a b`, coordinates `[1 - t, t]`,
 the witnesses are those combinations of the `orig1` / `orig2` parts, `n` is `ccw_face_normal(a, b)` (or zero if that failed);
 `.panic` never happens -/
 def OutOK : Epa2Result K → Prop
-  | .some p1 p2 n => ∃ (a b : CSOPoint2 K) (b0 b1 : K), GV a ∧ GV b ∧ BcOK b0 b1 ∧
+  | .some p1 p2 n => ∃ (a b : CSOPoint2 K) (b0 b1 : K), GV a ∧ GV b ∧
+      ((b0 = 1 ∧ b1 = 0) ∨ ∃ proj, epaProjectOrigin2 a.point b.point = some (proj, b0, b1)) ∧
       (ccwFaceNormal2 a.point b.point = some n ∨ (ccwFaceNormal2 a.point b.point = none ∧ n = V2.zero)) ∧
       p1 = (a.orig1.smul b0).add (b.orig1.smul b1) ∧ p2 = (a.orig2.smul b0).add (b.orig2.smul b1)
   | .none => True
@@ -104,18 +108,22 @@ def OutOK : Epa2Result K → Prop
 structure Inv (st : Epa2State K) : Prop where
   verts : ∀ (i : Nat) (v : CSOPoint2 K), st.vertices[i]? = some v → GV v
   faces : ∀ (i : Nat) (f : Face2 K), st.faces[i]? = some f → FaceOK st.vertices f
-  heap : ∀ fid ∈ st.heap, ∃ f, st.faces[fid.id]? = some f ∧ BcOK f.bc0 f.bc1
-  best : ∃ f, st.faces[st.best.id]? = some f ∧ BcOK f.bc0 f.bc1
+  heap : ∀ fid ∈ st.heap, ∃ f, st.faces[fid.id]? = some f ∧ InsOK st.vertices f
+  best : ∃ f, st.faces[st.best.id]? = some f ∧ InsOK st.vertices f
 
 theorem return_ok {vs : Array (CSOPoint2 K)} {f : Face2 K} (hv : ∀ (i : Nat) (v : CSOPoint2 K), vs[i]? = some v → GV v)
-    (hf : FaceOK vs f) (hb : BcOK f.bc0 f.bc1) : OutOK GV (epa2Return f vs) := by
+    (hf : FaceOK vs f) (hb : InsOK vs f) : OutOK GV (epa2Return f vs) := by
   obtain ⟨a, b, ha, hb', hn⟩ := hf
   unfold epa2Return Face2.closestPoints
   simp only [ha, hb', OutOK]
-  refine ⟨a, b, f.bc0, f.bc1, hv _ _ ha, hv _ _ hb', hb, ?_, rfl, rfl⟩
-  rcases hn with ⟨h1, _⟩ | ⟨h1, h2, _⟩
-  · exact Or.inl h1
-  · exact Or.inr ⟨h1, h2⟩
+  refine ⟨a, b, f.bc0, f.bc1, hv _ _ ha, hv _ _ hb', ?_, ?_, rfl, rfl⟩
+  · rcases hb with h | ⟨a', b', ha', hb'', hp⟩
+    · exact Or.inl h
+    · rw [ha] at ha'; rw [hb'] at hb''; cases ha'; cases hb''
+      exact Or.inr ⟨_, hp⟩
+  · rcases hn with ⟨h1, _⟩ | ⟨h1, h2, _⟩
+    · exact Or.inl h1
+    · exact Or.inr ⟨h1, h2⟩
 
 theorem FaceOK_push {vs : Array (CSOPoint2 K)} {f : Face2 K} (c : CSOPoint2 K) (hf : FaceOK vs f) :
     FaceOK (vs.push c) f := by
@@ -128,18 +136,31 @@ theorem FaceOK_push {vs : Array (CSOPoint2 K)} {f : Face2 K} (c : CSOPoint2 K) (
     · rename_i h; rw [h] at hb; simp at hb
     · exact hb
 
+theorem getElem?_push_of_some {α : Type} {vs : Array α} {i : Nat} {a : α} (c : α) (h : vs[i]? = some a) :
+    (vs.push c)[i]? = some a := by
+  rw [Array.getElem?_push]; split
+  · rename_i h'; rw [h'] at h; simp at h
+  · exact h
+
+theorem InsOK_push {vs : Array (CSOPoint2 K)} {f : Face2 K} (c : CSOPoint2 K) (hf : InsOK vs f) :
+    InsOK (vs.push c) f := by
+  rcases hf with h | ⟨a, b, ha, hb, hp⟩
+  · exact Or.inl h
+  · exact Or.inr ⟨a, b, getElem?_push_of_some c ha, getElem?_push_of_some c hb, hp⟩
+
 theorem newWithProj_ok {vs : Array (CSOPoint2 K)} {proj : V2 K} {b0 b1 : K} {p0 p1 : Nat} {f : Face2 K}
-    (h : Face2.newWithProj vs proj b0 b1 p0 p1 = some f) : FaceOK vs f ∧ f.bc0 = b0 ∧ f.bc1 = b1 := by
+    (h : Face2.newWithProj vs proj b0 b1 p0 p1 = some f) :
+    FaceOK vs f ∧ f.bc0 = b0 ∧ f.bc1 = b1 ∧ f.pts0 = p0 ∧ f.pts1 = p1 ∧ f.proj = proj := by
   unfold Face2.newWithProj at h
   split at h
   · rename_i a b ha hb
     split at h
     · rename_i n hn
       cases h
-      exact ⟨⟨a, b, ha, hb, Or.inl ⟨hn, rfl⟩⟩, rfl, rfl⟩
+      exact ⟨⟨a, b, ha, hb, Or.inl ⟨hn, rfl⟩⟩, rfl, rfl, rfl, rfl, rfl⟩
     · rename_i hn
       cases h
-      exact ⟨⟨a, b, ha, hb, Or.inr ⟨hn, rfl, rfl⟩⟩, rfl, rfl⟩
+      exact ⟨⟨a, b, ha, hb, Or.inr ⟨hn, rfl, rfl⟩⟩, rfl, rfl, rfl, rfl, rfl⟩
   · cases h
 
 theorem newWithProj_isSome {vs : Array (CSOPoint2 K)} (proj : V2 K) (b0 b1 : K) {p0 p1 : Nat}
@@ -150,24 +171,20 @@ theorem newWithProj_isSome {vs : Array (CSOPoint2 K)} (proj : V2 K) (b0 b1 : K) 
   split <;> exact ⟨_, rfl⟩
 
 theorem new_ok {vs : Array (CSOPoint2 K)} {p0 p1 : Nat} {f : Face2 K} {ins : Bool}
-    (h : Face2.new vs p0 p1 = some (f, ins)) : FaceOK vs f ∧ (ins = true → BcOK f.bc0 f.bc1) := by
+    (h : Face2.new vs p0 p1 = some (f, ins)) : FaceOK vs f ∧ (ins = true → InsOK vs f) := by
   unfold Face2.new at h
   split at h
-  · split at h
+  · rename_i a b ha hb
+    split at h
     · rename_i proj b0 b1 hp
       rw [Option.map_eq_some_iff] at h
       obtain ⟨g, hg, he⟩ := h
       cases he
-      obtain ⟨h1, h2, h3⟩ := newWithProj_ok hg
-      refine ⟨h1, fun _ => ?_⟩
-      unfold epaProjectOrigin2 at hp
-      simp only at hp
-      split at hp
-      · cases hp
-      · split at hp
-        · cases hp
-        · cases hp
-          rw [h2, h3]; exact Or.inl rfl
+      obtain ⟨h1, h2, h3, h4, h5, h6⟩ := newWithProj_ok hg
+      refine ⟨h1, fun _ => Or.inr ⟨a, b, ?_, ?_, ?_⟩⟩
+      · rw [h4]; exact ha
+      · rw [h5]; exact hb
+      · rw [h2, h3, h6]; exact hp
     · rw [Option.map_eq_some_iff] at h
       obtain ⟨g, hg, he⟩ := h
       cases he
@@ -190,12 +207,12 @@ theorem new_isSome {vs : Array (CSOPoint2 K)} {p0 p1 : Nat} (h0 : p0 < vs.size) 
 theorem addFace_ok {vs : Array (CSOPoint2 K)} {curr : K} {faces : Array (Face2 K)} {heap : Array (FaceId2 K)}
     {f : Face2 K × Bool} (hv : ∀ (i : Nat) (v : CSOPoint2 K), vs[i]? = some v → GV v)
     (hf : ∀ (i : Nat) (g : Face2 K), faces[i]? = some g → FaceOK vs g)
-    (hh : ∀ fid ∈ heap, ∃ g, faces[fid.id]? = some g ∧ BcOK g.bc0 g.bc1)
-    (hok : FaceOK vs f.1) (hin : f.2 = true → BcOK f.1.bc0 f.1.bc1) :
+    (hh : ∀ fid ∈ heap, ∃ g, faces[fid.id]? = some g ∧ InsOK vs g)
+    (hok : FaceOK vs f.1) (hin : f.2 = true → InsOK vs f.1) :
     (∀ r, epa2AddFace vs curr faces heap f = .inl r → OutOK GV r) ∧
     (∀ faces' heap', epa2AddFace vs curr faces heap f = .inr (faces', heap') →
       (∀ (i : Nat) (g : Face2 K), faces'[i]? = some g → FaceOK vs g) ∧
-      (∀ fid ∈ heap', ∃ g, faces'[fid.id]? = some g ∧ BcOK g.bc0 g.bc1) ∧
+      (∀ fid ∈ heap', ∃ g, faces'[fid.id]? = some g ∧ InsOK vs g) ∧
       (∀ (i : Nat) (g : Face2 K), faces[i]? = some g → faces'[i]? = some g)) := by
   have hpushF : ∀ (i : Nat) (g : Face2 K), (faces.push f.1)[i]? = some g → FaceOK vs g := by
     intro i g hg
@@ -208,7 +225,7 @@ theorem addFace_ok {vs : Array (CSOPoint2 K)} {curr : K} {faces : Array (Face2 K
     rw [Array.getElem?_push]; split
     · rename_i h; rw [h] at hg; simp at hg
     · exact hg
-  have hheapOld : ∀ fid ∈ heap, ∃ g, (faces.push f.1)[fid.id]? = some g ∧ BcOK g.bc0 g.bc1 := by
+  have hheapOld : ∀ fid ∈ heap, ∃ g, (faces.push f.1)[fid.id]? = some g ∧ InsOK vs g := by
     intro fid hfid
     obtain ⟨g, hg, hb⟩ := hh fid hfid
     exact ⟨g, hkeep _ _ hg, hb⟩
@@ -296,10 +313,12 @@ theorem step_ok {supp1 supp2 : V2 K → V2 K} (hs : ∀ d, GV (csoFromShapes sup
             FaceOK (st.vertices.push (csoFromShapes supp1 supp2 face.normal)) g :=
           fun i g hg => FaceOK_push _ (h.faces i g hg)
         have hbest0 : ∃ f, st.faces[(if (csoFromShapes supp1 supp2 face.normal).point.dot face.normal < st.maxDist
-            then fid else st.best).id]? = some f ∧ BcOK f.bc0 f.bc1 := by
+            then fid else st.best).id]? = some f ∧
+            InsOK (st.vertices.push (csoFromShapes supp1 supp2 face.normal)) f := by
           split
-          · exact ⟨face, hface, hbc⟩
-          · exact h.best
+          · exact ⟨face, hface, InsOK_push _ hbc⟩
+          · obtain ⟨f, hf, hb⟩ := h.best
+            exact ⟨f, hf, InsOK_push _ hb⟩
         generalize hB : (if (csoFromShapes supp1 supp2 face.normal).point.dot face.normal < st.maxDist
             then fid else st.best) = best' at hx hbest0
         generalize hM : (if (csoFromShapes supp1 supp2 face.normal).point.dot face.normal < st.maxDist
@@ -307,7 +326,7 @@ theorem step_ok {supp1 supp2 : V2 K → V2 K} (hs : ∀ d, GV (csoFromShapes sup
         have hbest := hbest0
         split at hx
         · split at hx
-          · subst hx; exact return_ok GV hvs (FaceOK_push _ hfok) hbc
+          · subst hx; exact return_ok GV hvs (FaceOK_push _ hfok) (InsOK_push _ hbc)
           · obtain ⟨bf, hbf, hbb⟩ := hbest
             rw [hbf] at hx
             subst hx
@@ -326,8 +345,11 @@ theorem step_ok {supp1 supp2 : V2 K → V2 K} (hs : ∀ d, GV (csoFromShapes sup
           obtain ⟨g1, hg1⟩ : ∃ g, f1 = g := ⟨_, rfl⟩
           have hn1 := new_ok (f := f1.1) (ins := f1.2) (by rw [hf1])
           have hn2 := new_ok (f := f2.1) (ins := f2.2) (by rw [hf2])
-          have hheap0 : ∀ y ∈ heap, ∃ g, st.faces[y.id]? = some g ∧ BcOK g.bc0 g.bc1 :=
-            fun y hy => h.heap y (hsub y hy)
+          have hheap0 : ∀ y ∈ heap, ∃ g, st.faces[y.id]? = some g ∧
+              InsOK (st.vertices.push (csoFromShapes supp1 supp2 face.normal)) g := by
+            intro y hy
+            obtain ⟨g, hg, hb⟩ := h.heap y (hsub y hy)
+            exact ⟨g, hg, InsOK_push _ hb⟩
           have A1 := addFace_ok GV (curr := -fid.negDist) hvs hfaces' hheap0 hn1.1 hn1.2
           split at hx
           · rename_i r hr
@@ -365,7 +387,7 @@ theorem start_ok {supp1 supp2 : V2 K → V2 K} (hs : ∀ d, GV (csoFromShapes su
     {vs : Array (CSOPoint2 K)} {faces : Array (Face2 K)} {heap : Array (FaceId2 K)}
     (hv : ∀ (i : Nat) (v : CSOPoint2 K), vs[i]? = some v → GV v)
     (hf : ∀ (i : Nat) (g : Face2 K), faces[i]? = some g → FaceOK vs g)
-    (hh : ∀ fid ∈ heap, ∃ g, faces[fid.id]? = some g ∧ BcOK g.bc0 g.bc1)
+    (hh : ∀ fid ∈ heap, ∃ g, faces[fid.id]? = some g ∧ InsOK vs g)
     (hne : heap.size ≠ 0) : OutOK GV (epa2Start supp1 supp2 fuel vs faces heap) := by
   unfold epa2Start
   split
@@ -444,8 +466,8 @@ theorem closestPoints_ok {supp1 supp2 : V2 K → V2 K} (hs : ∀ d, GV (csoFromS
           rcases mem_heapPush hy with h | h
           · rcases mem_heapPush h with h' | h'
             · simp at h'
-            · subst h'; rw [e1]; exact ⟨f1, by simp, Or.inr ⟨k1a, k1b⟩⟩
-          · subst h; rw [e2]; exact ⟨f2, by simp, Or.inr ⟨k2a, k2b⟩⟩
+            · subst h'; rw [e1]; exact ⟨f1, by simp, Or.inl ⟨k1a, k1b.1⟩⟩
+          · subst h; rw [e2]; exact ⟨f2, by simp, Or.inl ⟨k2a, k2b.1⟩⟩
         · rw [size_heapPush]; exact Nat.succ_ne_zero _
       · trivial
     · rename_i hno
